@@ -39,6 +39,7 @@ type Profile struct {
 	Shared    bool   `json:"shared_conn,omitempty"` // sqlite: clients share one backend object
 	Reopen    bool   `json:"reopen,omitempty"`
 	Procs     bool   `json:"procs,omitempty"` // sqlite: every client is a separate OS process
+	Chunked   bool   `json:"chunked_get,omitempty"` // etag: GET answered with chunked encoding, no Content-Length
 	Steps     int    `json:"steps"`
 }
 
@@ -64,6 +65,10 @@ func MakeProfile(prop string, seed uint64, tier string) *Profile {
 			p.FaultW = []int{5, 15}[r.Intn(2)]
 			p.Tag = p.Backend + "+faults"
 		}
+		if p.Backend == "etag" && r.Chance(1, 3) {
+			p.Chunked = true
+			p.Tag += "+chunked"
+		}
 	}
 	return p
 }
@@ -79,6 +84,7 @@ type opSpec struct {
 	kind string // create fetch replace reopen
 	id   int
 	val  []byte
+	same bool // replace: write back the bytes the handle holds
 }
 
 type opRec struct {
@@ -323,6 +329,7 @@ func (w *world) main(replay []core.Cmd) {
 	case "etag":
 		w.net = newPipeNet()
 		w.s3 = newFakeS3("locks", w.gate)
+		w.s3.chunked = p.Chunked
 		w.srv = serve(w.net, w.s3)
 	}
 	r := core.NewRand(core.Mix(sim.Seed, 0x5c71))
@@ -356,6 +363,9 @@ func (w *world) main(replay []core.Cmd) {
 					s = opSpec{kind: "fetch", id: id}
 				case x < 9:
 					s = opSpec{kind: "replace", id: id, val: mkval(id)}
+					if r.Chance(1, 8) {
+						s.same = true // write back the value the handle holds
+					}
 				default:
 					if p.Reopen && !p.Shared {
 						s = opSpec{kind: "reopen"}
@@ -552,6 +562,11 @@ func (w *world) startOp(c *client) {
 	rec := &opRec{n: len(w.hist), client: c.idx, kind: kind, id: s.id, val: s.val, call: w.evseq}
 	if kind == "replace" {
 		rec.old = bytes.Clone(c.last[s.id].Bytes())
+		if s.same {
+			s.val = bytes.Clone(rec.old)
+			rec.val = s.val
+			w.sim.Probe("replace.same-value")
+		}
 	}
 	w.hist = append(w.hist, rec)
 	c.busy = true
